@@ -15,7 +15,8 @@ Full statement for the model (`Isolated loc`): for every history `h` (any interl
 on any instances) and every instance `b`, what `b` lets its callers see is what it shows when only
 its own operations run.  It is PROVED for the per-grammar design (`C18_isolation`), REFUTED for the
 module-global design (`C18_global_cap_leak`), and `C18_source_design_verdict` says which of the two
-the source currently is.
+the source currently is (per-grammar since /repo 59688743; before that commit the verdict was the
+refutation, reproduced on the real code as finding `C18/global-MAX_REPETITIONS`).
 
 Every `theorem` below is an audited obligation.  `decide +kernel` is used for the finite facts about
 the generated constants (`C18_source_constants`) and in the non-vacuity examples only.
@@ -194,7 +195,8 @@ theorem C18_global_design_not_isolated (cfg : Cfg) (dflt : Nat) (dset : Settings
 
 /-- the verdict for the design the source has NOW (read by the translator): either the cap is per
     grammar and the property holds for the model, or it is the module global and the property is
-    violated by the witness above (the open finding `C18/global-MAX_REPETITIONS`). -/
+    violated by the witness above (finding `C18/global-MAX_REPETITIONS`; the check then also expects
+    the differential on the real code to show it). -/
 theorem C18_source_design_verdict :
     (Generated.capLocation = .perGrammar ∧
       Isolated Generated.capLocation Generated.tunerCfg Generated.defaultMaxRepetitions Generated.defaultSettings)
